@@ -56,7 +56,11 @@ func (e *Env) trBool(text string) (Term, error) {
 }
 
 func (e *Env) tr(text string, hint string) (res Term, err error) {
-	src := desugarImplies(text)
+	pk := ""
+	if e.pkg != nil {
+		pk = shortPkg(e.pkg.Path())
+	}
+	src := desugarImplies(expandMacros(text, pk, parsedMacros))
 	ex, perr := parser.ParseExpr(src)
 	if perr != nil {
 		return Term{}, fmt.Errorf("parse %q: %v", src, perr)
@@ -216,6 +220,10 @@ func (e *Env) ident(name string, hint string) (Term, types.Type) {
 	case "now":
 		return e.st.now, nil
 	case "now0":
+		// the allocation clock at entry of the function the clause belongs to
+		if e.old != nil {
+			return e.old.now, nil
+		}
 		return Term{"now!0", sInt}, nil
 	}
 	if ev, ok := e.vars[name]; ok {
@@ -404,6 +412,12 @@ func isLitExpr(x ast.Expr) bool {
 
 func (e *Env) selectField(base Term, bt types.Type, name string) (Term, types.Type) {
 	f := e.f
+	if base.Sort == sSl {
+		switch name {
+		case "base", "off", "len", "cap":
+			return T(sInt, "(Sl.%s %s)", name, base.S), nil
+		}
+	}
 	if bt == nil {
 		// datatype accessor by sort
 		if info, ok := f.vc.sorts.structs[base.Sort]; ok {
@@ -768,6 +782,52 @@ type modTarget struct {
 	whole bool // the whole component
 	key   string
 	ref   Term
+	since *Term // every object allocated at or after this stamp
+}
+
+// modTargets resolves one modifies entry into frame targets (mapof yields two).
+func (e *Env) modTargets(m string) (out []modTarget, err error) {
+	defer func() {
+		if r := recover(); r != nil {
+			err = fmt.Errorf("%v", r)
+		}
+	}()
+	m = strings.TrimSpace(m)
+	if strings.HasPrefix(m, "since(") && strings.HasSuffix(m, ")") {
+		pre := e.atEntry()
+		t, err2 := pre.tr(m[len("since("):len(m)-1], sRef)
+		if err2 != nil {
+			return nil, err2
+		}
+		if t.Sort == sSl {
+			t = T(sInt, "(Sl.base %s)", t.S)
+		}
+		var th Term
+		if t.S == pre.st.now.S {
+			th = pre.st.now
+		} else {
+			th = T(sInt, "(alloc %s)", t.S)
+		}
+		return []modTarget{{since: &th}}, nil
+	}
+	if strings.HasPrefix(m, "mapof(") {
+		pre := e.atEntry()
+		ex, perr := parser.ParseExpr(m[len("mapof(") : len(m)-1])
+		if perr != nil {
+			return nil, perr
+		}
+		mv, mtt := pre.expr(ex, sRef)
+		hk, vk, _, _ := e.f.mapKeys(mtt.Underlying().(*types.Map))
+		return []modTarget{{key: hk, ref: mv}, {key: vk, ref: mv}}, nil
+	}
+	t, err := e.modTarget(m)
+	if err != nil {
+		return nil, err
+	}
+	if t.key == "" && !t.all {
+		return nil, nil
+	}
+	return []modTarget{t}, nil
 }
 
 func (e *Env) modTarget(m string) (mt modTarget, err error) {
